@@ -9,6 +9,7 @@ import IrisVerif.Lemmas.Heap
 import IrisVerif.Lemmas.HeapOwned
 import IrisVerif.Model.Portable
 import IrisVerif.Lemmas.Portable
+import IrisVerif.Lemmas.C20State
 
 namespace IrisVerif.C20
 open IrisVerif.Heap
@@ -890,13 +891,14 @@ theorem importVariant_roundtrip (d : InvData) (tol : Rat) (v : List Val × List 
   show (enforceLevels (d.quantities.map normB) v.1, enforceChanges (d.quantities.map normB) v.2) = v
   rw [enforceLevels_map normB normB_kind, enforceChanges_map normB normB_kind, h3, h4]
 
-/-- WHOLE-RECORD ROUND TRIP: for every well-formed model record and every list of variants,
-`fromPortable (toPortable (d, vars))` succeeds and returns `roundTripped d` with EXACTLY the same variant values
-(levels and changes of every quantity of every variant, parameters and stds included) -- whatever the substitution
-function and the tolerance are. -/
-theorem portable_roundtrip (subst : List Quantity → Equation → Equation) (tol : Rat) (d : InvData)
-    (base : List Quantity) (vars : List (List Val × List Val)) (w : PortableWF d base vars) :
-    fromPortable subst tol (toPortable d vars) = .ok (roundTripped d tol, vars) := by
+/-- the whole-record round trip for ANY per-variant import function `imp` that maps the exported dictionary of a variant
+`v` to `g v` (in-memory portable: `g = id`; after JSON: the changes are reset) -/
+theorem portable_roundtrip_G (imp : InvData → List (String × Val × Val) → List Val × List Val)
+    (g : List Val × List Val → List Val × List Val)
+    (subst : List Quantity → Equation → Equation) (tol : Rat) (d : InvData)
+    (base : List Quantity) (vars : List (List Val × List Val)) (w : PortableWF d base vars)
+    (himp : ∀ v, v ∈ vars → imp (roundTripped d tol) (encodeVariant (d.quantities.map (·.name)) v.1 v.2) = g v) :
+    fromPortableG imp subst tol (toPortable d vars) = .ok (roundTripped d tol, vars.map g) := by
   have hQ : decodeQs (encodeQs d.quantities) = some (base.map normQ) := by
     rw [quantities_roundtrip, w.split, groupQ_export_base d.flags base w.sorted]
   have hE : decodeEs (encodeEs d.equations) = some (d.equations.map normE) := by
@@ -934,22 +936,31 @@ theorem portable_roundtrip (subst : List Quantity → Equation → Equation) (to
     unfold encodeVariant at he
     have := (List.of_mem_zip he).1
     simpa using this
-  have himport : (toPortable d vars).variants.map (importVariant (roundTripped d tol)) = vars := by
+  have himport : (toPortable d vars).variants.map (imp (roundTripped d tol)) = vars.map g := by
     rw [hvars, List.map_map]
-    have : vars.map (importVariant (roundTripped d tol) ∘ fun v => encodeVariant (d.quantities.map (·.name)) v.1 v.2)
-        = vars.map id := by
-      apply List.map_congr_left
-      intro v hv
-      obtain ⟨h1, h2, h3, h4⟩ := w.vars_ok v hv
-      exact importVariant_roundtrip d tol v w.nodup h1 h2 h3 h4
-    rw [this, List.map_id]
-  unfold fromPortable
+    apply List.map_congr_left
+    intro v hv
+    exact himp v hv
+  unfold fromPortableG
   have hfmt : (toPortable d vars).format = "0.3.0" := rfl
   have hq' : (toPortable d vars).quantities = encodeQs d.quantities := rfl
   have he' : (toPortable d vars).equations = encodeEs d.equations := rfl
   have hfl : (toPortable d vars).flags = d.flags := rfl
   simp only [hfmt, hq', he', hfl, hQ, hE, hqs2, hes1, hinv, ne_eq, not_true_eq_false, if_false, hnames, hcounts, hne,
     hknown, himport, Bool.false_eq_true]
+
+/-- WHOLE-RECORD ROUND TRIP: for every well-formed model record and every list of variants,
+`fromPortable (toPortable (d, vars))` succeeds and returns `roundTripped d` with EXACTLY the same variant values
+(levels and changes of every quantity of every variant, parameters and stds included) -- whatever the substitution
+function and the tolerance are. -/
+theorem portable_roundtrip (subst : List Quantity → Equation → Equation) (tol : Rat) (d : InvData)
+    (base : List Quantity) (vars : List (List Val × List Val)) (w : PortableWF d base vars) :
+    fromPortable subst tol (toPortable d vars) = .ok (roundTripped d tol, vars) := by
+  have := portable_roundtrip_G importVariant id subst tol d base vars w (fun v hv => by
+    obtain ⟨h1, h2, h3, h4⟩ := w.vars_ok v hv
+    exact importVariant_roundtrip d tol v w.nodup h1 h2 h3 h4)
+  rw [List.map_id] at this
+  exact this
 
 /-- the executable check the driver runs on every generated model implies the well-formedness of the theorem -/
 theorem portableWFb_sound (d : InvData) (vars : List (List Val × List Val)) (h : portableWFb d vars = true) :
@@ -1043,5 +1054,155 @@ example : fromPortable (fun _ e => e) 0 (toPortable dW varsW) = .ok (roundTrippe
 
 example : encodeQ (q "ant_e" .antShock none |>.attrs |> fun _ => { name := "ant_e", kind := .antShock, logly := none, attrs := none })
     = some ⟨"#v", "ant_e", none, "", []⟩ := rfl
+
+
+/-! ## round 4: flags resolution, variants added in one call, the solution memo, JSON transport, token substitution -/
+
+open IrisVerif.C20State
+
+/-! ### flags: total functions on the keyword dictionary, proved exhaustively -/
+
+/-- every one of the 8 flag combinations survives `to_portable` / `from_portable` (all three `is_` aliases are read) -/
+theorem flags_portable_roundtrip_all (f : Flags) : flagsFromPortable (flagsToPortable f) = f := by
+  rcases f with ⟨a, b, c⟩
+  cases a <;> cases b <;> cases c <;> rfl
+
+/-- a flag is set exactly when its plain spelling OR its `is_` alias is `True` -- for each of the three flags -/
+theorem fromKwargs_spec (k : FlagKw) :
+    ((fromKwargs k).linear = true ↔ k.linear = some true ∨ k.isLinear = some true) ∧
+    ((fromKwargs k).flat = true ↔ k.flat = some true ∨ k.isFlat = some true) ∧
+    ((fromKwargs k).deterministic = true ↔ k.deterministic = some true ∨ k.isDeterministic = some true) := by
+  simp [fromKwargs, truthy]
+
+/-- `update_from_kwargs` (`resolve_flags` of solve / steady / systemize): an EXPLICIT value wins -- also an explicit
+`False` over a `True` set at creation -- and an absent one keeps the model's flag; on all 8 × 27 inputs -/
+theorem update_explicit_wins (f : Flags) (k : FlagKw) :
+    (updateFromKwargs f k).linear = k.linear.getD f.linear ∧
+    (updateFromKwargs f k).flat = k.flat.getD f.flat ∧
+    (updateFromKwargs f k).deterministic = k.deterministic.getD f.deterministic := by
+  simp [updateFromKwargs, fromKwargs, truthy]
+
+example : (updateFromKwargs ⟨true, true, false⟩ { linear := some false }).linear = false := rfl
+example : (updateFromKwargs ⟨true, true, false⟩ {}) = ⟨true, true, false⟩ := rfl
+example : fromKwargs { isDeterministic := some true } = ⟨false, false, true⟩ := rfl
+
+/-! ### `alter_num_variants` growing by several variants in one call -/
+
+/-- the variants added by one call are pairwise DISTINCT, freshly allocated objects (1 → 3, 1 → 5, shrink-then-grow: any
+`k`), and by `step_owned` each of them owns two dicts of its own -/
+theorem expand_adds_distinct_variants (k : Nat) (vs : List Nat) (h h' : Heap) (vs' : List Nat) (hw : h.WF)
+    (hr : expandVars h vs k = .ok (vs', h')) :
+    ∃ news : List Nat, vs' = vs ++ news ∧ news.length = k ∧ news.Nodup ∧ (∀ v, v ∈ news → h.next ≤ v ∧ v < h'.next) := by
+  obtain ⟨news, a, b, c, d, _⟩ := expandVars_fresh_distinct k vs h h' vs' hw hr
+  exact ⟨news, a, b, c, d⟩
+
+example : ∃ h', alter h0 4 5 = .ok h' ∧ (getModel h' 4).map (fun t => t.2.1.length) = .ok 5 ∧
+    (getModel h' 4).map (fun t => decide t.2.1.Nodup) = .ok true := ⟨_, rfl, rfl, rfl⟩
+
+/-! ### the expansion memo -/
+
+/-- MEMO THEOREM: from any state in which every solution object satisfies the memo invariant (entry `k` carries stamp `k`
+of the object's own version -- true for fresh objects: `memo = []`), after ANY history of horizon requests (longer,
+shorter, repeated), copies (the memo travels) and re-solves on an original and its copies, EVERY answer ever given equals
+the answer of a brand-new solution object of the same version: `freshAnswer version forward`. -/
+theorem memo_answers_are_fresh : ∀ (ops : List MOp) (objs : List SolObj), AllInv objs →
+    ∀ e, e ∈ mrun objs ops → e.2.2.1 = freshAnswer e.2.2.2 e.2.1 := by
+  intro ops
+  induction ops with
+  | nil => intro objs _ e he; cases he
+  | cons op rest ih =>
+    intro objs hinv e he
+    have hnext := mstep_inv objs op hinv
+    cases op with
+    | expand i f =>
+      simp only [mrun] at he
+      cases hi : objs[i]? with
+      | none =>
+        simp only [mstep, hi] at he hnext
+        exact ih objs hnext e he
+      | some s =>
+        simp only [mstep, hi, List.mem_cons] at he hnext
+        rcases he with rfl | he
+        · simp only [Option.map_some, Option.getD_some]
+          exact (expand_answer s (hinv s (List.mem_of_getElem? hi)) f).1
+        · exact ih _ hnext e he
+    | copy i =>
+      simp only [mrun] at he
+      exact ih _ hnext e he
+    | resolve i v =>
+      simp only [mrun] at he
+      exact ih _ hnext e he
+
+/-- in particular an original used at a short horizon and then at a longer one answers what a copy taken before any use
+answers (the scenario of the seeded changes r2-1 and r4-2) -/
+example : mrun [⟨7, []⟩] [.copy 0, .expand 0 1, .expand 0 5, .expand 1 5]
+    = [(0, 1, freshAnswer 7 1, 7), (0, 5, freshAnswer 7 5, 7), (1, 5, freshAnswer 7 5, 7)] := by decide
+
+example : AllInv [⟨7, []⟩] := by intro s hs; simp at hs; subst hs; rfl
+
+/-! ### JSON transport of the portable: what survives -/
+
+theorem initChanges_roundTripped (d : InvData) (tol : Rat) : initChanges (roundTripped d tol) = initChanges d := by
+  unfold initChanges roundTripped
+  simp only [List.map_map]
+  apply List.map_congr_left
+  intro q _
+  simp
+
+/-- after a JSON transport the LEVELS of a variant come back exactly, its CHANGES are whatever a fresh variant has -/
+theorem importVariantJson_roundtrip (d : InvData) (tol : Rat) (v : List Val × List Val)
+    (hnd : (d.quantities.map (·.name)).Nodup) (h1 : v.1.length = d.quantities.length)
+    (h2 : v.2.length = d.quantities.length) (h3 : enforceLevels d.quantities v.1 = v.1) :
+    importVariantJson (roundTripped d tol) (encodeVariant (d.quantities.map (·.name)) v.1 v.2)
+      = (v.1, enforceChanges d.quantities (initChanges d)) := by
+  unfold importVariantJson
+  have hn : (roundTripped d tol).quantities.map (·.name) = d.quantities.map (·.name) := names_map_normB _
+  have hpairs := variant_values_roundtrip (d.quantities.map (·.name)) v.1 v.2 hnd (by simp [h1]) (by simp [h2])
+  simp only [hn, hpairs]
+  have l1 : (initLevels (roundTripped d tol)).length = v.1.length := by simp [initLevels, roundTripped, h1]
+  rw [zipWith_fst v.1 v.2 _ l1 (by rw [h1, h2]), initChanges_roundTripped]
+  show (enforceLevels (d.quantities.map normB) v.1, enforceChanges (d.quantities.map normB) (initChanges d)) = _
+  rw [enforceLevels_map normB normB_kind, enforceChanges_map normB normB_kind, h3]
+
+/-- WHOLE RECORD THROUGH JSON (model of the code as it is): everything of `portable_roundtrip` survives -- names, kinds,
+log status, equations, flags, and every LEVEL of every variant (parameters, stds, steady levels) -- but every steady CHANGE
+is replaced by the initial one (`None`, or 0/1 for loggables of a flat model) -/
+theorem portable_json_roundtrip (subst : List Quantity → Equation → Equation) (tol : Rat) (d : InvData)
+    (base : List Quantity) (vars : List (List Val × List Val)) (w : PortableWF d base vars) :
+    fromPortableG importVariantJson subst tol (toPortable d vars)
+      = .ok (roundTripped d tol, vars.map (fun v => (v.1, enforceChanges d.quantities (initChanges d)))) :=
+  portable_roundtrip_G importVariantJson _ subst tol d base vars w (fun v hv => by
+    obtain ⟨h1, h2, h3, _⟩ := w.vars_ok v hv
+    exact importVariantJson_roundtrip d tol v w.nodup h1 h2 h3)
+
+/-- a witness that changes really are lost: in the non-flat demo model a steady change of `x` of 1/2 comes back as `None` -/
+example : (fromPortableG importVariantJson (fun _ e => e) 0
+      (toPortable dW [([none, some 0, some 0, some (1 / 3), some 1], [some (1 / 2), none, none, none, none])])).toOption.map
+        (fun r => r.2) = some [([none, some 0, some 0, some (1 / 3), some 1], [none, none, none, none, none])] := by decide
+
+/-! ### the anticipated-shock substitution on tokens -/
+
+/-- with no shock lacking its counterpart the substitution is the identity (exported well-formed models: `missingAnt = []`) -/
+theorem substTokens_nil (toks : List String) : substTokens [] toks = toks := by
+  unfold substTokens
+  simp
+
+/-- more generally it only touches tokens that ARE a missing shock name -/
+theorem substTokens_no_occurrence (missing toks : List String) (h : ∀ t, t ∈ toks → t ∉ missing) :
+    substTokens missing toks = toks := by
+  unfold substTokens
+  induction toks with
+  | nil => rfl
+  | cons t ts ih =>
+    have ht : missing.contains t = false := by
+      simpa using h t (by simp)
+    simp only [List.flatMap_cons, ht]
+    rw [ih (fun x hx => h x (by simp [hx]))]
+    rfl
+
+/-- and it is NOT idempotent on its own output: applying it to an already substituted equation doubles the anticipated
+term -- this is the defect `portable-import-raises` of the first round seen at token level -/
+example : substTokens ["e"] (substTokens ["e"] ["x", "=", "e"])
+    = ["x", "=", "(", "(", "e", "+", "ant_e", ")", "+", "ant_e", ")"] := by decide
 
 end IrisVerif.C20
